@@ -34,6 +34,12 @@ def run(ctx):
                   e.get("got"), e.get("kids"), e.get("present")),
                {"history": h["id"], "step": li, "prefix": h["events"][:li],
                 "how": "VERIF_SEED=%s go test -run TestVerifC15Rows ./internal/dcs (overlay)" % ctx.seed})
+    # growth beyond the list: the health record across a mysync restart (HealthRecord.tla); OwnerAlive must hold,
+    # RecordWhileAlive is expected to fail (documented observation, DESIGN.md 11) - neither can raise a violation here
+    hr = vlib.tlc_must(ctx, vlib.tlc(ctx, "HealthRecord", cfg="MC_HealthRecord_holds.cfg", workers=2, timeout=300), "HealthRecord")
+    if hr.violations:
+        raise vlib.Inconclusive("HealthRecord.tla violates OwnerAlive (model counterexample): %s" % hr.violations[:1])
+    hz = vlib.tlc(ctx, "HealthRecord", cfg="MC_HealthRecord.cfg", workers=2, timeout=300)
     events = sum(len(h["events"]) for h in rows)
     kinds = {}
     for h in rows:
@@ -51,6 +57,7 @@ def run(ctx):
                 "non-trivial = distinct (operation, result) classes exercised",
         "samples": [rows[0]["events"][:3]] if rows else [],
         "result_classes": kinds,
+        "health_record_model_states": hr.distinct, "restart_hazard_counterexample_found": bool(hz.violations),
         "exhaustive": False,
     }
     assumptions = ["operations are issued while the client is connected (the property quantifies over faults between operations)",
